@@ -84,6 +84,10 @@ def c19_side_condition(req, tick, accepted, is_buy):
     return ""
 
 
+class Broken(Exception):
+    """The code under test raised where no valid operation may raise; the history ends with a crash event."""
+
+
 class BookSession:
     def __init__(self, tick=1.0, den=2, exact=True, p0=20, fund0=None, market_cls=None):
         self.U = Units(tick, den, exact)
@@ -137,9 +141,18 @@ class BookSession:
         e["lg"] = cnt
         if e["k"] == "tick":
             e["exp"] = exp
-        e.update(self._snap())
+        try:
+            e.update(self._snap())
+        except MachineryError:
+            raise
+        except Exception as ex:  # noqa: BLE001 - a getter of the code under test raised
+            self._crash("getter-after-" + e["k"], ex)
         self.ev.append(e)
         return e
+
+    def _crash(self, op, ex):
+        self.ev.append({"k": "crash", "op": op, "exc": type(ex).__name__})
+        raise Broken(op)
 
     # ------------------------------------------------------------------ operations
     def submit(self, buy, mo, req, vol, ttl, neg="", req_float=None):
@@ -197,10 +210,19 @@ class BookSession:
     def tick(self, fund=None):
         fund = self.fund0 if fund is None else fund
         self.ops.append(["tick", int(fund)])
-        self.m._update_time(next_fundamental_price=self.U.f(fund))
+        try:
+            self.m._update_time(next_fundamental_price=self.U.f(fund))
+        except Exception as ex:  # noqa: BLE001
+            self._crash("tick", ex)
         e = {"k": "tick", "fund": int(fund)}
         e = self._emit(e)
-        e["hist"] = self._history()
+        try:
+            e["hist"] = self._history()
+        except MachineryError:
+            raise
+        except Exception as ex:  # noqa: BLE001
+            self.ev.pop()
+            self._crash("history-getters", ex)
         return e
 
     def _history(self):
@@ -260,6 +282,19 @@ def replay_ops(hdr, market_cls=None):
     """Re-execute the inputs of a recorded history against the current tree; returns the new history."""
     s = BookSession(tick=hdr["tick"], den=hdr["den"], exact=hdr["exact"], p0=hdr["p0"], fund0=hdr["fund0"],
                     market_cls=market_cls)
+    try:
+        _replay_into(s, hdr)
+        s.end()
+    except Broken:
+        pass
+    h = s.header()
+    for key in ("flavour", "seed", "src"):
+        if key in hdr:
+            h[key] = hdr[key]
+    return h
+
+
+def _replay_into(s, hdr):
     for op in hdr["ops"]:
         k = op[0]
         if k == "sub":
@@ -275,9 +310,3 @@ def replay_ops(hdr, market_cls=None):
             s.set_running(op[1])
         elif k == "probe":
             s.probe(op[1], op[2], op[3])
-    s.end()
-    h = s.header()
-    for key in ("flavour", "seed", "src"):
-        if key in hdr:
-            h[key] = hdr[key]
-    return h
